@@ -774,6 +774,11 @@ fn vp_native_builder_features_roundtrip() {
                       (crate::head(u), "HEAD"), (crate::options(u), "OPTIONS"), (crate::patch(u), "PATCH"), (crate::trace(u), "TRACE")] {
         assert_eq!(wire_of(b).method, name); cases += 1;
     }
+    let sess = crate::Session::new();
+    for (b, name) in [(sess.get(u), "GET"), (sess.post(u), "POST"), (sess.put(u), "PUT"), (sess.delete(u), "DELETE"),
+                      (sess.head(u), "HEAD"), (sess.options(u), "OPTIONS"), (sess.patch(u), "PATCH"), (sess.trace(u), "TRACE")] {
+        assert_eq!(wire_of(b).method, name, "method of a request created from a session"); cases += 1;
+    }
     assert!(crate::RequestBuilder::try_new(Method::CONNECT, "http://h.test/").is_err());
     // query parameters
     let keys = ["a", "k ey", "", "dup", "é", "x&y=z", "100%", "q?#"];
